@@ -1,7 +1,7 @@
 CONSTANTS
   Models = {"pheno", "mox2", "linear", "pred", "flag"}
   MaxHist = 9
-  Acts = {"S:IVORAL", "S:FO", "S:PER", "S:TR", "S:LAG", "S:ZOE", "S:MM", "X:ADDIIV", "X:COVLIN", "X:COVCAT", "X:COVPW", "X:IOV", "X:BOXCOX", "X:COMB", "X:IIVRUV", "X:POWER", "X:TV", "D:FIXTH", "D:ZEROOM", "D:FIXVAR1", "P:MU", "P:DECL", "P:CLEAN", "P:SIMP", "P:GREEK", "P:RENAME", "P:SOLVE", "P:GENERIC", "P:NONMEM", "P:UNLOAD", "P:LOAD", "P:UNUSED", "P:JOINT", "P:SPLIT", "P:FIXED", "P:NONRANDOM", "O:OBS", "O:IPRED", "O:PRED", "O:ETAGRAD", "O:EPSGRAD", "O:EVAL"}
+  Acts = {"S:IVORAL", "S:FO", "S:PER", "S:TR", "S:LAG", "S:ZOE", "S:MM", "X:REDEF", "X:ADDIIV", "X:COVLIN", "X:COVCAT", "X:COVPW", "X:IOV", "X:BOXCOX", "X:COMB", "X:IIVRUV", "X:POWER", "X:TV", "D:FIXTH", "D:ZEROOM", "D:FIXVAR1", "P:MU", "P:DECL", "P:CLEAN", "P:SIMP", "P:GREEK", "P:RENAME", "P:SOLVE", "P:GENERIC", "P:NONMEM", "P:UNLOAD", "P:LOAD", "P:UNUSED", "P:JOINT", "P:SPLIT", "P:FIXED", "P:NONRANDOM", "O:OBS", "O:IPRED", "O:PRED", "O:ETAGRAD", "O:EPSGRAD", "O:EVAL"}
 INIT TraceInit
 NEXT TraceNext
 INVARIANT EmitVer
